@@ -192,7 +192,7 @@ class C14(Prop):
                     if np.all(np.isfinite(est.ub)):
                         # queries that go through the gamut's vertex set
                         Bq = np.array([[3.0, 2.5, 4.0], [0.0, 0.0, 0.0], [9.0, 0.5, 0.5]])
-                        for f in (lambda: est.sample_in_gamut(3, seed=1), lambda: est.compute_gamut(seed=1),
+                        for f in (lambda: est.sample_in_gamut(3, seed=1), lambda: est.compute_gamut(seed=1), lambda: est.compute_gamut(seed=1, fraction=True),
                                   lambda: call(est.gamut_l1_scaling, Bq), lambda: call(est.gamut_dist_scaling, Bq),
                                   lambda: est.in_hull(Bq[[0, 2]], normalized=True)):
                             try:
@@ -266,6 +266,7 @@ class C14(Prop):
         pairs = [("in_hull", lambda e: e.in_hull(Bq), None), ("fit(B)", lambda e: np.hstack(e.fit(Bq, **HI)), None),
                  ("sample_in_gamut(seed)", (lambda e: e.sample_in_gamut(5, seed=3)) if fin else none, None),
                  ("compute_gamut(seed)", (lambda e: np.atleast_1d(e.compute_gamut(seed=2))) if fin else none, None),
+                 ("compute_gamut(fraction)", (lambda e: np.atleast_1d(e.compute_gamut(seed=1, fraction=True))) if fin else none, None),
                  ("in_hull(normalized)", (lambda e: e.in_hull(Bq, normalized=True)) if fin else none, None),
                  ("gamut_dist_scaling", (lambda e: e.gamut_dist_scaling(Bq)) if fin else none, None),
                  ("range_of_solutions", (lambda e: np.hstack(e.range_of_solutions(Bin))) if (fin and under) else none, None),
@@ -276,7 +277,7 @@ class C14(Prop):
                  ("fit(B, model='poisson') after an excitation fit", warm_then(lambda e: e.fit(Bin, model="excitation"), lambda e: np.hstack(e.fit(Bin, model="poisson", **HI))),
                   lambda e: np.hstack(e.fit(Bin, model="poisson", **HI)))]
         if not ext:
-            pairs = pairs[:7]      # the sequence-sensitive (warm-up) pairs are run on every random history and on a fifth of the exhaustive ones
+            pairs = pairs[:8]      # the sequence-sensitive (warm-up) pairs are run on every random history and on a fifth of the exhaustive ones
         for name, f, ftw in pairs:
             ftw = ftw or f
             try:
